@@ -10,7 +10,11 @@ RULES = {"C05.a", "C05.b", "C05.c", "C05.d", "C04.e", "C01.c"}
 
 
 def check(ctx):
-    kernel.analyze(ctx, RULES)
+    kernel.analyze(ctx, RULES | {"C04.c"})
+    # the lookahead length is measured on the text behind the candidate: the kernel splits the haystack it is given at the
+    # candidate's end (C04.c above), which is that text only if the callers hand it the rest of the input from their offset
+    from . import cursor
+    cursor.analyze(ctx, {"C04.c"})
     # 'the pattern listed first' = first position in terminal_ids, built in pattern order
     from .pC01 import priority_rules
     priority_rules(ctx)
